@@ -75,6 +75,11 @@ func c04Case(c *core.Ctx, t *dyn.TypeOps, ch, k, s, e int, caseID string, forceC
 	root := w.Adopt(b, "parent")
 	win := w.Slice(root, s, e, "window")
 	alias := w.Slice(win, 0, win.M.Cap/ch, "alias")
+	if win.M.Len%ch == 0 {
+		// a second view of exactly the window's current length: it must keep
+		// its own length when the window is appended to
+		w.Slice(win, 0, win.M.Len/ch, "same-length-twin")
+	}
 	capv := win.M.Cap - win.M.Len
 	d := map[string]any{"type": t.Name, "channels": ch, "parent_frames": k, "window": []int{s, e}, "spare_samples": capv}
 	counts := []int{0, 1, capv - 1, capv, capv + 1, 3*capv + 7}
